@@ -1,4 +1,4 @@
-import MaddyVerif.Lemmas.PoolReach
+import MaddyVerif.Lemmas.PoolKey
 /-!
 # C19 — a pooled connection has one owner at a time and is closed once
 
@@ -139,6 +139,69 @@ theorem C19_empty_after_shutdown (cfg : Cfg) (progs : List (List Op)) (ws : List
     (hk : (run (init cfg progs) ws).keysNil = true) (x : Nat) (ch : Chan)
     (hx : (run (init cfg progs) ws).chans[x]? = some ch) : ch.buf = [] :=
   empty_after_shutdown (reach_inv cfg progs ws).cinv hk hx
+
+/-! ## handed out only under the key, and within the idle lifetime, of the last `Return`
+
+`retKey c` / `retAt c` are history variables: the key and the time of the last `pool.Return(key, c)` call, written by
+the `ret` op only; no transition of the pool reads them.  `lastUse c` is the connection's `LastUseAt()` stamp; it is
+written by the worker's `use` op and by `cfg.New` only — in particular **not** by `Usable()`. -/
+
+theorem reach_kinv (cfg : Cfg) (progs : List (List Op)) (ws : List Who) : KInv (run (init cfg progs) ws) :=
+  kinv_run ws (inv_init cfg progs) (kinv_init cfg progs)
+
+/-- **A connection is only ever handed out for the key it was returned under.**  For every pooled hand-out, the
+key `Get` was called with is the key of the last `Return` of that connection. -/
+theorem C19_handed_out_under_return_key (cfg : Cfg) (progs : List (List Op)) (ws : List Who) :
+    ∀ e ∈ (run (init cfg progs) ws).handLog, e.retKey = some e.key :=
+  fun e he => ((reach_kinv cfg progs ws).log e he).1
+
+/-- … because a connection idle in a bucket was last returned under the key of that bucket (and has not been used
+since that `Return`). -/
+theorem C19_idle_under_return_key (cfg : Cfg) (progs : List (List Op)) (ws : List Who) (x : Nat) (ch : Chan)
+    (hx : (run (init cfg progs) ws).chans[x]? = some ch) (c : Nat) (hc : c ∈ ch.buf) :
+    (run (init cfg progs) ws).retKey c = some ch.key ∧
+      (run (init cfg progs) ws).lastUse c ≤ (run (init cfg progs) ws).retAt c :=
+  (reach_kinv cfg progs ws).buf x ch hx c hc
+
+/-- **Handed out less than the idle lifetime after its last `Return`.**  Measured by the time of the `Return` call
+(not by what the connection object reports): every pooled hand-out happened at most `MaxConnLifetime` after the
+last `Return` of that connection. -/
+theorem C19_handed_out_within_lifetime_of_last_return (cfg : Cfg) (progs : List (List Op)) (ws : List Who) :
+    ∀ e ∈ (run (init cfg progs) ws).handLog, e.now ≤ e.retAt + cfg.maxLife := by
+  intro e he
+  have h1 := (C19_never_handed_out_expired cfg progs ws e he).1
+  have h2 := ((reach_kinv cfg progs ws).log e he).2
+  omega
+
+/-- **`Usable()` cannot move the idle stamp.**  The step in which `Get` calls `conn.Usable()` and compares
+`conn.LastUseAt()` with the lifetime leaves every `LastUseAt` stamp (and the `Return` history) as it was.  The
+real connection type (`mxConn`) is checked against this by the harness (`C19/usable-moved-idle-stamp`). -/
+theorem C19_usable_keeps_idle_stamp (s s' : St) (i p k h c : Nat) (prog : List Op) (held : List (Nat × Nat))
+    (hstep : stepTask s i ⟨.gUsable k h c, prog, held⟩ p = some s') :
+    s'.lastUse = s.lastUse ∧ s'.retKey = s.retKey ∧ s'.retAt = s.retAt ∧ s'.now = s.now := by
+  simp only [stepTask] at hstep
+  split at hstep
+  · simp only [Option.some.injEq] at hstep; subst hstep; exact ⟨rfl, rfl, rfl, rfl⟩
+  · split at hstep
+    · simp only [Option.some.injEq] at hstep; subst hstep; exact ⟨rfl, rfl, rfl, rfl⟩
+    · simp only [Option.some.injEq] at hstep; subst hstep; exact ⟨rfl, rfl, rfl, rfl⟩
+
+/-- More generally no code of the pool (`Get`, `Return`, `CleanUp`, `Close`, the spawned `Close()` calls) ever writes
+the idle stamp of an existing connection: only a worker's `use` (a step from `idle`) does. -/
+theorem C19_pool_never_restamps (s s' : St) (i p : Nat) (t : Task) (hpc : t.pc ≠ .idle)
+    (hstep : stepTask s i t p = some s') (c : Nat) (hc : c < s.fresh) : s'.lastUse c = s.lastUse c := by
+  have hne : ¬ c = s.fresh := by omega
+  obtain ⟨pc, prog, held⟩ := t
+  cases pc
+  case idle => exact absurd rfl hpc
+  all_goals (
+    simp only [stepTask] at hstep
+    repeat' split at hstep
+    all_goals (try (simp only [Option.some.injEq, reduceCtorEq] at hstep))
+    all_goals (try subst hstep)
+    all_goals (try (obtain ⟨ch, rest, hch, hbuf, rfl⟩ := recv_conn ‹recv _ _ = _›))
+    all_goals (try (obtain ⟨ch, hch, hopen, rfl⟩ := closeChan_some ‹closeChan _ _ = _›))
+    all_goals (first | rfl | (simp only [miss, setTask, hne, ↓reduceIte]) | simp at hstep))
 
 /-! ## returned connections are reissued or closed exactly once -/
 
@@ -330,6 +393,17 @@ example :
     let s := run (init cfgEx [[.get 0, .use, .ret, .get 0]])
       [.task 0 0, .task 0 0, .task 0 0, .task 0 0, .task 0 0, .task 0 0, .task 0 0, .task 0 0, .task 0 0, .task 0 0]
     s.handLog.map (·.conn) = [0] ∧ (s.tasks.map (·.held)) = [[(0, 0)]] ∧ s.closed = [] := by
+  decide
+
+/-- Non-vacuity of the key / last-`Return` theorems: two keys; the connection returned under key 1 at time 3 (last
+used at time 1) is handed out for key 1 at time 4 with the history the theorems speak about. -/
+example :
+    let s := run (init { maxKeys := 2, maxConns := 2, maxLife := 5, staleLife := 9 }
+        [[.get 0, .ret, .get 1, .use, .ret, .get 1]])
+      ([.tick 1] ++ List.replicate 8 (.task 0 0) ++ [.tick 2] ++ List.replicate 3 (.task 0 0) ++ [.tick 1] ++
+        List.replicate 5 (.task 0 0))
+    s.handLog = [{ conn := 1, lastUse := 1, now := 4, broken := false, key := 1, retKey := some 1, retAt := 3 }] ∧
+      s.retKey 0 = some 0 ∧ s.retAt 0 = 1 := by
   decide
 
 /-- Non-vacuity of the quiescence theorem: everything done after shutdown, one connection closed by the
